@@ -18,6 +18,7 @@ import (
 // the log/delivery (C04) and clock (C06) invariants over the recorded history.
 func runWithHistory(p prog.Program, tag string, sessionsRestart bool) (Outcome, *prog.History) {
 	h := prog.NewHistory()
+	h.LamportOnly = p.Cfg.Flags["allow_all_detach"] != 0
 	gcFree := map[int]bool{} // peers whose current attachment is GC-free (seen in their attach request)
 	res := prog.Run(p, prog.RunOpts{
 		ProjTag:        tag,
@@ -140,6 +141,12 @@ func evalC06(p prog.Program) Outcome {
 	if out.Fail == nil {
 		out.NonTrivial = h.MinVVChecks > 0 && h.CausalChecks > 0 &&
 			(h.SnapshotResponses > 0 || out.Ev["detach"] > 0 || out.Ev["reattach"] > 0 || out.Ev["late_attach"] > 0)
+		if p.Cfg.Flags["allow_all_detach"] != 0 && out.Ev != nil {
+			out.Ev["orphan_stratum"] = 1
+			if h.SnapshotResponses > 0 {
+				out.Ev["orphan_stratum_snapshot_fed"] = 1
+			}
+		}
 	}
 	return out
 }
@@ -154,8 +161,25 @@ func genC06() *rapid.Generator[prog.Program] {
 		MinClients: 2, MaxClients: pick(4, 5), MaxSteps: pick(30, 60), MaxTail: pick(6, 12),
 		Kinds: prog.AllEditKinds, SchedOps: sched, SyncWeight: 8, OfflineBias: true, Snapshots: true,
 	})
+	// orphan stratum: every client may detach, so snapshots are stored while
+	// the document has no version-vector row (F23 region: the stored vector is
+	// empty there, the stored lamport is the only carrier of the document's
+	// time); cache purges make later attachers be served from those stored
+	// snapshots. Vector-free edit kinds only (F23 breaks the vectors of the
+	// changes made afterwards); the lamport rules all apply.
+	orphan := prog.Gen(prog.GenOpts{
+		MinClients: 1, MaxClients: 3, MaxSteps: pick(30, 50), MaxTail: pick(6, 10),
+		EditOps:  []string{"oset", "odel", "rootset", "cinc", "aadd", "oset", "rootset"},
+		SchedOps: []string{"detach", "detach", "detach", "reattach", "reattach", "reattach", "cachepurge", "cachepurge", "attach"},
+		SyncWeight: 5, Snapshots: true,
+	})
 	return rapid.Custom(func(t *rapid.T) prog.Program {
 		var p prog.Program
+		if rapid.IntRange(0, 5).Draw(t, "orphan") == 0 {
+			p = orphan.Draw(t, "p")
+			p.Cfg.Flags = map[string]int{"allow_all_detach": 1}
+			return p
+		}
 		if rapid.IntRange(0, 1).Draw(t, "snap") == 0 {
 			p = snap.Draw(t, "p")
 		} else {
